@@ -60,6 +60,8 @@ TRUSTED = ['harness seams replaced by recorders',
            'tree stream: executions and task executions are identified by creation rank; state_info / output are compared '
            'by class (none / the operator message / engine-computed)']
 LEAN_MODULES = ['Mistral.Props.C11', 'Mistral.Props.C11Tree', 'Mistral.Props.C03Race', 'Mistral.Props.C03RaceCac']
+# second/third round: the C11Tree theorems are at full strength and hold for EVERY event history (stops, pause and
+# resume commands with their propagation, lost post-commit operations); see docs/C11.md
 RACE_CHUNKS = [{'family': 'wf', 'scenarios': ['cacSucceed', 'stopCancel']},
                {'family': 'wf', 'scenarios': ['cacFail', 'stopSuccess']},
                {'family': 'wf', 'scenarios': ['cacCancel', 'stopError']}]
